@@ -122,5 +122,7 @@ func (tfg *TaskfileGraph) Merge() (*Taskfile, error) {
 		return nil, err
 	}
 
+	rootVertex.Taskfile.Tasks.ResolveRootRefs()
+
 	return rootVertex.Taskfile, nil
 }
